@@ -91,7 +91,7 @@ int main(int argc, char** argv) {
   bool nolimit = a.get("nolimit", 1) != 0;
   for (const Pres& p : presentations())
     if (p.kind != P_STRING && (nolimit || p.kind != P_STREAM_NOLIMIT)) g_pres.push_back(p);
-  uint64_t runs = a.kv.count("runs") ? uint64_t(a.get("runs", 0)) : vf::budget(150000, 20000000);
+  uint64_t runs = a.kv.count("runs") ? uint64_t(a.get("runs", 0)) : vf::budget(150000, 6000000);
   std::set_terminate(on_terminate);
 
   for (int idx = 0; idx < kRoots; ++idx)
